@@ -43,9 +43,18 @@ def _job(job):
     from ..catalogue import entry
     e = entry(name)
     out = []
-    for cfg, batches in trials:
+    for cfg, batches, prior in trials:
         try:
             m = e.make(cfg)
+            if prior is not None:
+                # the object is reused across epochs: same number of batches of OTHER data, compute, reset
+                for b in prior:
+                    e.update(m, cfg, b)
+                try:
+                    m.compute()
+                except Exception:
+                    pass
+                m.reset()
             for b in batches:
                 e.update(m, cfg, b)
             try:
@@ -81,7 +90,10 @@ def run(ctx):
             batches = [e.gen_batch(ctx.rng, cfg, max(e.min_batch, ctx.rng.choice([1, 2, 3, 7, 16]))) for _ in range(nb)]
             if e.concat(cfg, batches) is None or not e.defined(cfg, batches):
                 continue
-            trials.append((cfg, batches))
+            prior = None
+            if t % 3 == 0:
+                prior = [e.gen_batch(ctx.rng, cfg, max(e.min_batch, ctx.rng.choice([1, 2, 3, 7]))) for _ in range(nb)]
+            trials.append((cfg, batches, prior))
         jobs.append((e.name, trials))
     res = sandbox.run_jobs(_job, jobs, timeout=ctx.n(150, 900), workers=12)
     for (name, trials), (status, val) in zip(jobs, res):
@@ -89,11 +101,11 @@ def run(ctx):
         if status != "ok":
             bad = {"observed": f"worker {status}: {val}"}
             val = []
-        for (cfg, batches), d in zip(trials, val):
-            s.case((name, repr(cfg), repr(batches)), len(batches) >= 2, sample={"class": name, "cfg": cfg, "batches": len(batches)})
+        for (cfg, batches, prior), d in zip(trials, val):
+            s.case((name, repr(cfg), repr(batches)), len(batches) >= 2, sample={"class": name, "cfg": cfg, "batches": len(batches), "prior_epoch": prior is not None})
             s.count("class:" + name)
             if d and bad is None:
-                bad = {"cfg": cfg, "batches": batches, "observed": d}
+                bad = {"cfg": cfg, "batches": batches, "prior_epoch": prior, "observed": d}
         if bad:
             ctx.violation("failing-input", name, {"check": "class_vs_functional", "class": name, **bad, "broken": f"tie:fn:{name}"},
                           finding_id=core.match_finding("C03", name, str(bad["observed"])))
